@@ -482,7 +482,7 @@ prop(
 
 prop(
     "C18",
-    level="model_checking",
+    level="exploration",
     rule=("cases = histories of API calls {new_query, prepare_helper, prepare_shard, receive_inputs, query_status, shard_status, complete, kill} "
           "(+ 'release' of a peer that is slow to answer prepare) issued through the production request handlers of three real HelperApps x "
           "{1,2,3} shards on in-memory MPC/shard transports, at coordinator / follower helpers and leader / non-leader shards, with real "
